@@ -321,6 +321,24 @@ class Gen:
             fields[1] = r.getrandbits(32)
         for _ in range(r.choice([0, 1, 3, 8, 20])):
             fields[r.randrange(0, n * 32)] = r.getrandbits(32)
+        # edge patterns of a mask block: only its top bit, only its bottom bit, completely full
+        edge = r.random()
+        if edge < 0.2:
+            b = r.randrange(1, n + 1)
+            for i in list(fields):
+                if i // 32 == b:
+                    del fields[i]
+            fields[b * 32 + 31] = r.getrandbits(32)
+        elif edge < 0.3:
+            b = r.randrange(1, n + 1)
+            for i in range(32):
+                fields[b * 32 + i] = r.getrandbits(32)
+        elif edge < 0.4:
+            b = r.randrange(1, n + 1)
+            for i in list(fields):
+                if i // 32 == b:
+                    del fields[i]
+            fields[b * 32] = r.getrandbits(32)
         # canonical block count: exactly as many blocks as the highest field needs
         n = max(fields) // 32 + 1
         return (n, fields)
